@@ -7,9 +7,10 @@ Versions == {"v1", "v2", "v3"}
 VARIABLE runs
 Order == <<"x.ui", "uisupport_x.h">>
 \* the code handles the outputs strictly in order: the header is started when the .ui is finished
-Started(p) == p = Order[1] \/ phase[Order[1]] \in {"skip", "done"}
-StepP(p) == Started(p) /\ (ReadOld(p) \/ (\E t \in {"t1", "t2", "t3", "t4"} : CreateTemp(p, t)) \/ Write(p, TRUE) \/ Write(p, FALSE) \/ Chmod(p) \/ Rename(p))
-Rerun == /\ runs < 2 /\ (~alive \/ \A p \in Paths : phase[p] \in {"skip", "done"})
+Started(p) == (p = Order[1] \/ phase[Order[1]] \in {"skip", "done"}) /\ \A q \in Paths : phase[q] # "failed"
+StepP(p) == Started(p) /\ (ReadOld(p) \/ (\E t \in {"t1", "t2", "t3", "t4"} : CreateTemp(p, t)) \/ Write(p, TRUE) \/ Write(p, FALSE) \/ Chmod(p) \/ Rename(p) \/ Abandon(p))
+\* (a failed output ends the run: the tool exits with an error)
+Rerun == /\ runs < 2 /\ (~alive \/ (\A p \in Paths : phase[p] \in {"skip", "done"}) \/ (\E p \in Paths : phase[p] = "failed"))
          /\ runs' = runs + 1 /\ alive' = TRUE
          /\ \E w \in [Paths -> Versions] : want' = w
          /\ phase' = [p \in Paths |-> "todo"] /\ old' = fs
